@@ -12,19 +12,82 @@ from .state import Unsupported, PyRaise
 from .interp import Env
 
 
-def _element_term(it, node, gen, env, x):
-    """Evaluate the element expression on the symbolic element x without forking."""
-    st = it.st
-    e2 = Env(env.module, env)
-    it.assign(gen.target, x, e2)
-    st.no_fork += 1
-    try:
+unpackable = z3.Function("unpackable", Val, I, z3.BoolSort())      # value can be unpacked into n targets
+unpack_item = z3.Function("unpack_item", Val, I, Val)
+unpack_exc = z3.Function("unpack_exc", Val, Val)
+
+
+class ElemSummary:
+    """The element expression(s) of a comprehension as terms over one symbolic element, together
+    with the partiality log: calls of pure oracles (validators) made while computing them."""
+
+    def __init__(self, it, gen, env, arr, lo, hi):
+        self.it, self.gen, self.env = it, gen, env
+        self.arr, self.lo, self.hi = arr, lo, hi
+        st = it.st
+        pairs = st.ghost.get("$pairs", {}).get(arr.get_id())
+        self.e2 = Env(env.module, env)
+        self.log = []
+        if pairs is not None and isinstance(gen.target, (ast.Tuple, ast.List)) and len(gen.target.elts) == 2:
+            a, b = st.fresh("elem_a", Val), st.fresh("elem_b", Val)
+            it.assign(gen.target.elts[0], a, self.e2)
+            it.assign(gen.target.elts[1], b, self.e2)
+            A, Bf = pairs
+            self.subst = lambda term, idx: z3.substitute(term, (a, A(idx)), (b, Bf(idx)))
+        else:
+            x = st.fresh("elem", Val)
+            if isinstance(gen.target, (ast.Tuple, ast.List)):
+                n = len(gen.target.elts)
+                # unpacking an element of unknown shape: defined only for n-item iterables
+                self.log.append((unpackable(x, n), unpack_exc(x)))
+                for k, t in enumerate(gen.target.elts):
+                    it.assign(t, unpack_item(x, k), self.e2)
+            else:
+                it.assign(gen.target, x, self.e2)
+            self.subst = lambda term, idx: z3.substitute(term, (x, z3.Select(arr, idx)))
+
+    def eval(self, *nodes):
+        it, st = self.it, self.it.st
+        st.no_fork += 1
+        prev = st.ghost.get("$pure_log")
+        st.ghost["$pure_log"] = self.log
         try:
-            return it.eval(node.elt, e2)
-        except PyRaise:
-            raise Unsupported("element expression of a summarised comprehension may raise")
-    finally:
-        st.no_fork -= 1
+            try:
+                return [it.eval(n, self.e2) for n in nodes]
+            except PyRaise:
+                raise Unsupported("element expression of a summarised comprehension raises unconditionally")
+        finally:
+            st.ghost["$pure_log"] = prev
+            st.no_fork -= 1
+
+    def defined(self, idx):
+        return z3.And([self.subst(ok, idx) for ok, _ in self.log]) if self.log else z3.BoolVal(True)
+
+    def failure(self, idx):
+        """Exception raised by the element at idx (the first failing partial step)."""
+        out = None
+        for ok, exc in reversed(self.log):
+            e = self.subst(exc, idx)
+            out = e if out is None else z3.If(z3.Not(self.subst(ok, idx)), e, out)
+        return out
+
+    def split(self, tag: str):
+        """Fork: every element is accepted / some element is the first rejected one (raises)."""
+        from .state import QFact
+        it, st = self.it, self.it.st
+        if not self.log:
+            return
+        lo, hi = self.lo, self.hi
+        i = z3.Int("i!el")
+        allok = z3.ForAll([i], z3.Implies(z3.And(lo <= i, i < hi), self.defined(i)))
+        if st.fork(tag, [("every-element-accepted", allok), ("an-element-rejected", z3.Not(allok))]) == 0:
+            st.assume(QFact(lambda k: z3.Implies(z3.And(lo <= k, k < hi), self.defined(k)), name="elok"))
+            return
+        j = st.fresh("first_rejected", I)
+        st.assume(z3.And(lo <= j, j < hi, z3.Not(self.defined(j))))
+        st.assume(QFact(lambda k: z3.Implies(z3.And(lo <= k, k < j), self.defined(k)), name="elok"))
+        st.ghost["$first_rejected"] = j
+        raise PyRaise(self.failure(j), "an element was rejected")
 
 
 def summarise(it, consumer: str, node, env, src):
@@ -34,28 +97,35 @@ def summarise(it, consumer: str, node, env, src):
     if sv is None:
         raise Unsupported(f"comprehension over a non-sequence value at line {node.lineno}")
     arr, lo, hi = sv
-    x = st.fresh("elem", Val)
-    body = _element_term(it, node, gen, env, x)
-    i = z3.Int("i!comp")
     if gen.ifs:
+        x = st.fresh("elem", Val)
+        e2 = Env(env.module, env)
+        it.assign(gen.target, x, e2)
+        st.no_fork += 1
+        try:
+            body = it.eval(node.elt, e2)
+        finally:
+            st.no_fork -= 1
         return _filtered(it, consumer, node, gen, env, x, body, arr, lo, hi)
+    es = ElemSummary(it, gen, env, arr, lo, hi)
+    (body,) = es.eval(node.elt)
+    i = z3.Int("i!comp")
     if consumer in ("any", "all"):
+        if es.log:
+            raise Unsupported("any/all over a partial element expression")
         t = it.truthy(body)
-        ti = z3.substitute(t, (x, z3.Select(arr, i)))
+        ti = es.subst(t, i)
         rng = z3.And(lo <= i, i < hi)
         if consumer == "any":
             return V.VBool(z3.Exists([i], z3.And(rng, ti)))
         return V.VBool(z3.ForAll([i], z3.Implies(rng, ti)))
-    bi = z3.substitute(body, (x, z3.Select(arr, lo + i)))
-    out = z3.Lambda([i], bi)
+    es.split(f"comprehension@{it.pos(node)}")
+    out = z3.Lambda([i], es.subst(body, lo + i))
     n = st.simp(hi - lo)
-    if consumer == "tuple":
-        l = st.fresh("comp", V.Lst)
-        st.assume(lib.tup_len(l) == n)
-        st.assume(lib.tup_arr(l) == out)
-        return V.VTup(l)
-    if consumer == "list":
-        return lib.new_seq_from(it, "list", out, z3.IntVal(0), n)
+    st.ghost.setdefault("$comps", []).append(dict(consumer=consumer, src=(arr, lo, hi),
+                                                  body=lambda idx: es.subst(body, idx), out=out, n=n, es=es))
+    if consumer in ("tuple", "list", "frozenset", "set"):
+        return lib.new_seq_from(it, consumer, out, z3.IntVal(0), n)
     raise Unsupported(f"{consumer}(<comprehension>) over a sequence of unknown length")
 
 
@@ -78,26 +148,17 @@ def summarise_dict(it, node, env):
     if sv is None:
         raise Unsupported(f"dict comprehension over a non-sequence value at line {node.lineno}")
     arr, lo, hi = sv
-    x = st.fresh("elem", Val)
-    e2 = Env(env.module, env)
-    it.assign(gen.target, x, e2)
-    st.no_fork += 1
-    try:
-        kt = it.eval(node.key, e2)
-        vt = it.eval(node.value, e2)
-    except PyRaise:
-        raise Unsupported("key/value expression of a summarised dict comprehension may raise")
-    finally:
-        st.no_fork -= 1
-    K = lambda t: z3.substitute(kt, (x, t))
-    Vf = lambda t: z3.substitute(vt, (x, t))
+    es = ElemSummary(it, gen, env, arr, lo, hi)
+    kt, vt = es.eval(node.key, node.value)
+    es.split(f"dict-comprehension@{it.pos(node)}")
+    K = lambda idx: es.subst(kt, idx)
+    Vf = lambda idx: es.subst(vt, idx)
     d = lib.new_dict(it, "dict")
     has = st.fresh("dc_has", V.ArrVB)
     val = st.fresh("dc_val", V.ArrVV)
     last = st.fresh("dc_last", V.ArrVI)
     for f, v in (("$dhas", has), ("$dval", val)):
         st.put(d, f, v)
-    # insertion order is not needed by the callers of the verified code beyond well-formedness
     keys = st.fresh("dc_keys", V.ArrIV)
     pos = st.fresh("dc_pos", V.ArrVI)
     n = st.fresh("dc_n", I)
@@ -106,23 +167,39 @@ def summarise_dict(it, node, env):
     st.put(d, "$lo", z3.IntVal(0))
     st.put(d, "$hi", n)
     st.assume(z3.And(n >= 0, n <= hi - lo))
-    k = z3.Const("k!dc", Val)
     st.assume(QFact(lambda k: z3.Implies(z3.Select(has, k),
                                          z3.And(lo <= z3.Select(last, k), z3.Select(last, k) < hi,
-                                                K(z3.Select(arr, z3.Select(last, k))) == k,
-                                                z3.Select(val, k) == Vf(z3.Select(arr, z3.Select(last, k))),
+                                                K(z3.Select(last, k)) == k,
+                                                z3.Select(val, k) == Vf(z3.Select(last, k)),
                                                 0 <= z3.Select(pos, k), z3.Select(pos, k) < n,
                                                 z3.Select(keys, z3.Select(pos, k)) == k)),
                     sort=Val, pattern=lambda k: z3.Select(has, k), name="dc1"))
     st.assume(QFact(lambda i: z3.Implies(z3.And(lo <= i, i < hi),
-                                         z3.And(z3.Select(has, K(z3.Select(arr, i))),
-                                                i <= z3.Select(last, K(z3.Select(arr, i))))),
-                    pattern=lambda i: z3.Select(arr, i), name="dc2"))
+                                         z3.And(z3.Select(has, K(i)), i <= z3.Select(last, K(i)))),
+                    name="dc2"))
     st.assume(QFact(lambda i: z3.Implies(z3.And(0 <= i, i < n),
                                          z3.And(z3.Select(has, z3.Select(keys, i)), z3.Select(pos, z3.Select(keys, i)) == i)),
                     pattern=lambda i: z3.Select(keys, i), name="dc3"))
-    st.ghost.setdefault("$dictcomps", []).append(dict(result=d, has=has, val=val, last=last, src=(arr, lo, hi), K=K, V=Vf))
+    elem = lambda t: z3.Select(arr, t)
+    st.ghost.setdefault("$dictcomps", []).append(dict(
+        result=d, has=has, val=val, last=last, src=(arr, lo, hi), Ki=K, Vi=Vf, es=es,
+        # key / value as functions of an element *value* (only meaningful for plain, non-unpacking targets)
+        K=(lambda t: z3.substitute(kt, *[(c, t) for c in _consts_named(kt, "elem!")])),
+        V=(lambda t: z3.substitute(vt, *[(c, t) for c in _consts_named(vt, "elem!")]))))
     return d
+
+
+def _consts_named(term, prefix):
+    out, seen, todo = [], set(), [term]
+    while todo:
+        t = todo.pop()
+        if t.get_id() in seen:
+            continue
+        seen.add(t.get_id())
+        if z3.is_const(t) and t.decl().kind() == z3.Z3_OP_UNINTERPRETED and t.decl().name().startswith(prefix):
+            out.append(t)
+        todo.extend(t.children())
+    return out or []
 
 
 def _filtered(it, consumer, node, gen, env, x, body, arr, lo, hi):
